@@ -596,6 +596,7 @@ func (w *writer) Sync() error {
 }
 
 func (w *writer) Close() error {
+	w.v.hook(OpClose, w.fd)
 	w.v.mu.Lock()
 	defer w.v.mu.Unlock()
 	if w.closed {
